@@ -101,13 +101,19 @@ theorem reorg_spec {h : Hist V} {top : Nat} (o : Ok h top) (n : Nat) :
   have h2 : e.1 ≤ n := by simpa using this.2
   omega
 
-/-- An old history (`isOld`) has had a constant value throughout the window of `b`. -/
-theorem isOld_const {W : Nat} {h : Hist V} {top b : Nat} (o : Ok h top) (ho : isOld W h b = true) {m : Nat}
-    (hm : b ≤ m + W) : valAt h m = some (latest h) := by
+/-- An old history (`isOld`: `lastKey + W < b`) has had a constant value at every block `m` with
+`b ≤ m + W + 1` (one block more generous than the window of a write stamped `b`). -/
+theorem isOld_const' {W : Nat} {h : Hist V} {top b : Nat} (o : Ok h top) (ho : isOld W h b = true) {m : Nat}
+    (hm : b ≤ m + W + 1) : valAt h m = some (latest h) := by
   obtain ⟨l, hl, _⟩ := o.lastKey
   unfold isOld at ho
   simp [hl] at ho
   exact valAt_eq_latest o.ne (keysLe_mono (keysLe_lastKey o.sorted hl) (by omega))
+
+/-- An old history (`isOld`) has had a constant value throughout the window of `b`. -/
+theorem isOld_const {W : Nat} {h : Hist V} {top b : Nat} (o : Ok h top) (ho : isOld W h b = true) {m : Nat}
+    (hm : b ≤ m + W) : valAt h m = some (latest h) :=
+  isOld_const' o ho (by omega)
 
 theorem valAt_new (i : Option V) (m : Nat) : valAt (Hist.new i) m = some i := by
   simp [Hist.new, valAt]
